@@ -138,7 +138,8 @@ def r16_1(ctx):
         if ipar:
             base[ipar] = 4
         bad = [({size: 0}, "size 0"), ({size: -1}, "negative size"), ({size: "a"}, "non-numeric size"),
-               ({size: None}, "size None"), ({"center": "ab"}, "centre is a string"), ({"center": (1, 2, 3)}, "centre is a triple"),
+               ({size: None}, "size None"), ({size: "2"}, "size is a numeric string"), ({size: "1.5"}, "size is a decimal string"),
+               ({"center": "ab"}, "centre is a string"), ({"center": (1, 2, 3)}, "centre is a triple"),
                ({"center": ("a", 1)}, "centre with a string coordinate")]
         good = [({size: Fr(1, 1000)}, "tiny positive size"), ({size: 3, "center": (5, 7)}, "int size, shifted centre"),
                 ({size: 2.5}, "float size")]
